@@ -236,7 +236,11 @@ func (st *c20State) afterBlock() {
 		ev, hasEv := resolved[v.id]
 		if !hasEv {
 			// lava drops a vote silently when it cannot resolve the epoch of its start block any more
-			if _, _, err := s.K.Epochstorage.GetEpochStartForBlock(s.Ctx, v.startBlock); err != nil {
+			_, _, err := s.K.Epochstorage.GetEpochStartForBlock(s.Ctx, v.startBlock)
+			if err == nil {
+				_, err = s.K.Epochstorage.BlocksToSave(s.Ctx, v.startBlock)
+			}
+			if err != nil {
 				r.Probe("c20_vote_dropped_epoch_unknown")
 				r.Logf("   vote #%d dropped at h=%d: start epoch unknown (%v)", v.seq, h, err)
 				v.phase = c20PhaseClosed
@@ -620,8 +624,23 @@ func (s *Sim) c20SendCommit(v *c20Vote, voteID, sender, kind string, opt int, ha
 	st.verifyAll("after-commit")
 }
 
+// c20NoOpenVote: with nothing to vote on, most vote messages would only hit closed votes; open a
+// new conflict instead (some late messages are still wanted).
+func (s *Sim) c20NoOpenVote() bool {
+	for _, v := range c20st(s).votes {
+		if v.phase != c20PhaseClosed {
+			return false
+		}
+	}
+	return s.R.Chance("ops", 3, 4)
+}
+
 func (s *Sim) opC20Commit() {
 	r := s.R
+	if s.c20NoOpenVote() {
+		s.opC20Detect()
+		return
+	}
 	v, id := s.c20PickVote(c20PhaseCommit)
 	if v != nil && v.phase == c20PhaseCommit && len(v.voters) > 0 && r.Chance("ops", 1, 3) {
 		// the whole jury commits (each member may be lazy); a common bias gives real majorities
@@ -720,6 +739,10 @@ func (s *Sim) c20SendReveal(v *c20Vote, voteID, sender, kind, variant string, no
 
 func (s *Sim) opC20Reveal() {
 	r := s.R
+	if s.c20NoOpenVote() {
+		s.opC20Detect()
+		return
+	}
 	v, id := s.c20PickVote(c20PhaseReveal)
 	if v != nil && v.phase == c20PhaseReveal && r.Chance("ops", 1, 3) {
 		r.Probe("c20_bulk_reveal")
